@@ -3,10 +3,14 @@
    0 -> 0 n (rule npaths (len (attr idx)^len)^npaths)^n | 3 (fuel) | 8 (bad wire): the errors of the
         ten schema-dependent rules of Valid/Rules13.v
    1 -> 0 tree (the execution model's document, Valid/ToExec.to_exec) | 1 (outside its fragment)
+   5 -> verdict of the field-merge specification function (Valid/Overlap.spec_verdict) on the translated
+        operation (0 none, 1 conflict, 2 untyped, 3 fuel), occurrence numbers distinct? | 6 | 7
    2 -> rules13 silent?, rules 5 8 9 12 of Valid/Rules.v silent?, to_exec defined?, well_typed?,
         schema_ok?  (0/1 each; 2 = undefined) *)
 From GV Require Import Base.Prelude Lang.Ast Exec.Value Exec.Schema Exec.Spec Exec.Typing Exec.Wire
-  Valid.StaticTyping Valid.Rules Valid.RulesWire Valid.Rules13 Valid.ToExec Valid.RulesLit Valid.RulesTyping.
+  Valid.StaticTyping Valid.Rules Valid.RulesWire Valid.Rules13 Valid.ToExec Valid.RulesLit Valid.RulesTyping
+  Valid.ToOverlap.
+From GV Require Valid.Overlap.
 
 Definition to_dirtable (w : wtree) : list (str * list arg_def) :=
   map (fun e => (to_str (kid 0 e), map to_argdef (w_kids (kid 1 e)))) (w_kids w).
@@ -26,6 +30,8 @@ Definition with_input (r : list N) (k : vschema -> node -> list N) : list N :=
   end.
 
 Definition no_float (_ : list N) : Z * N := (0%Z, 1).
+(* float literals identified by their text (for the field-merge function: same text = same argument) *)
+Definition text_float (t : list N) : Z * N := (0%Z, code t + 1).
 
 Definition b2n (b : bool) : N := if b then 1 else 0.
 Definition silent (o : option (list verr)) : N :=
@@ -82,5 +88,17 @@ Definition run (inp : list N) : list N :=
        | Some a, Some b => N.of_nat (length a - length b)
        | _, _ => 0
        end]))
+  | 5 :: r0 => with_name r0 (fun sel r => with_input r (fun vs d =>
+      match to_exec text_float sel d with
+      | Some x =>
+        match root_type (vs_s vs) (d_kind x) with
+        | Some rt =>
+          [match overlap_verdict (vs_s vs) rt x with
+            | Overlap.VNo => 0 | Overlap.VConflict => 1 | Overlap.VUntyped => 2 | Overlap.VFuel => 3 end;
+           b2n (Overlap.nodupb (Overlap.doc_fids (o_doc rt x)))]
+        | None => [7]
+        end
+      | None => [6]
+      end))
   | _ => [999999]
   end.
